@@ -184,17 +184,21 @@ theorem safeOpen_of_pass (fs : FS) (kfuel fuel : Nat) (cwd : Loc) (hcwd : RealDi
   have hin : comps (realpath fs kfuel fuel (render cwd) cwd base) <+: l := by
     have := contained_comps _ _ (check2_true _ _ _ _ _ _ _ hc2).2
     rwa [hrp, comps_render l hchain.1] at this
-  -- check 3 looked at the very same object: regular, at most one link
+  -- check 3 stats the very string the open uses: the same object, regular, at most one link
   have hreg : fs.get l = some (Node.file i) ∧ fs.nlink i ≤ 1 := by
     unfold check3 at hc3
-    rw [hrp] at hc3
     unfold statFile at hc3
+    rw [hk] at hc3
     rcases hkind with ⟨_, hg⟩ | ⟨_, hg⟩
-    · rw [kresolve_render fs kfuel cwd l hchain _ hg (by intro t; simp)] at hc3
-      simp only [hg, Bool.and_true, decide_eq_true_eq] at hc3
-      exact ⟨hg, hc3⟩
-    · rw [kresolve_render fs kfuel cwd l hchain _ hg (by intro t; simp)] at hc3
-      simp [hg] at hc3
+    · simp only [hg] at hc3
+      split at hc3
+      · simp only [Bool.and_eq_true, decide_eq_true_eq] at hc3
+        exact ⟨hg, hc3.1.2⟩
+      · exact absurd hc3 (by simp)
+    · simp only [hg] at hc3
+      split at hc3
+      · simp at hc3
+      · exact absurd hc3 (by simp)
   refine ⟨l, hk, hreg.1, hreg.2, hin, ?_, hchain, contained_comps _ _ hc1⟩
   intro bl hbl
   obtain ⟨hrb, hcb⟩ := realpath_of_kresolve fs kfuel fuel cwd hcwd _ kfuel bl hbl hfuel
@@ -510,25 +514,26 @@ theorem C10_base_resolves (fs : FS) (f : Nat) (cwd : Loc) (base loc : Str) (l : 
     have hsb : splitSep base = splitSep q ++ [[]] := by
       rw [hq, splitSep_append_sep]; simp [splitSep]
     simp only [startLoc, hab] at h
-    rw [hsp, walk_append fs f _ true hlne] at h
-    obtain ⟨d, hd, hrest⟩ := Option.bind_eq_some' h
+    rw [hsp] at h
+    obtain ⟨d, hd, hrest⟩ := walk_append_some fs f _ _ _ l h
     simp only [startLoc]
-    rw [hsb, walk_append fs f [[]] true (by simp), hd]
-    simp only [Option.bind_some]
+    rw [hsb]
     cases hl : splitSep loc with
     | nil => exact absurd hl hlne
     | cons c rest =>
       rw [hl] at hrest
       obtain ⟨hdir, _⟩ := walk_cons_inv fs f d c rest l hrest
-      exact ⟨d, by rw [walk_step_skip fs f d [] [] true hdir (Or.inl rfl), walk_nil]⟩
+      have h0 : walk fs 0 d [[]] true = some d := by
+        rw [walk_step_skip fs 0 d [] [] true hdir (Or.inl rfl), walk_nil]
+      exact ⟨d, by simpa using walk_append_of fs f _ _ d 0 [[]] d hd h0⟩
   · have he' : endsWithSep base = false := by simpa using he
     simp only [he', Bool.false_eq_true, if_false] at h
     have hne : base ++ '/' :: loc ≠ [] := by simp
     simp only [hne, if_false] at h
     have hab : isabs (base ++ '/' :: loc) = isabs base := isabs_append _ _ hb
     simp only [startLoc, hab] at h
-    rw [splitSep_append_sep, walk_append fs f _ true hlne] at h
-    obtain ⟨d, hd, _⟩ := Option.bind_eq_some' h
+    rw [splitSep_append_sep] at h
+    obtain ⟨d, hd, _⟩ := walk_append_some fs f _ _ _ l h
     exact ⟨d, hd⟩
 
 end IrVerif.Path
@@ -701,10 +706,11 @@ theorem ex_guarded : guardedOpen exFS 40 40 (render []) [] "/b".toList "f".toLis
     have c2 : check2 exFS 40 40 (render []) [] "/b".toList "f".toList = true := by
       unfold check2; rw [hp, r1, r2]; decide
     have c3 : check3 exFS 40 40 (render []) [] "/b".toList "f".toList = true := by
-      unfold check3 statFile
-      rw [hp, r1]
-      have : kresolve exFS 40 [] (render [['b'], ['f']]) true = some [['b'], ['f']] := hk
-      rw [this]
+      unfold check3 statFile statId
+      rw [hp, r1, r2]
+      have e1 : kresolve exFS 40 [] (render [['b'], ['f']]) true = some [['b'], ['f']] := hk
+      have e2 : kresolve exFS 40 [] (render [['b']]) true = some [['b']] := hkb
+      rw [hk, hkb, e1, e2]
       decide
     unfold checkContainment
     rw [if_neg (by decide), if_neg (by rw [c1]; simp), if_neg (by rw [c2]; simp),
@@ -896,7 +902,8 @@ theorem openFile_none_of_kresolve (fs : FS) (kfuel : Nat) (cwd : Loc) (p : Str)
   unfold openFile; rw [h]; simp
 
 /-- **C10_eloop_no_open**: when the kernel does not resolve `join(base, loc)` within its symlink
-bound `kfuel` (ELOOP: a symbolic-link loop, or links nested deeper than the bound; also ENOENT /
+bound `kfuel` (ELOOP: a symbolic-link loop, or more links to follow - nested or one after the other -
+than the bound; also ENOENT /
 ENOTDIR), then whatever `os.path.realpath` computed for it (it has no such bound) and whatever the
 three checks concluded, a call of any entry point from any cached state opens no file, and unless
 it is served from state cached earlier (no event at all) it raises and leaves the cached state
@@ -931,6 +938,69 @@ example (fs : FS) (cur : Loc) (c t : Str) (hd : fs.get cur = some Node.dir)
     (h1 : ¬ (c = [] ∨ c = DOT)) (h2 : c ≠ DOTDOT) (hn : fs.get (cur ++ [c]) = some (Node.link t)) :
     walk fs 0 cur [c] true = none := walk_step_link_zero fs cur c [] t hd h1 h2 hn
 
+/-- **C10_eloop_counts_all_links**: the kernel model counts EVERY symbolic link followed during one
+resolution, not the depth of their nesting (Linux: `nd->total_link_count`, MAXSYMLINKS = 40): each
+followed link costs one unit of the single budget of the resolution and the walk goes on, with what is
+left, over the link's target followed by the remaining components; with nothing left it fails (ELOOP).
+Consequence for links that are followed one after the other (nesting depth 1): for a directory `cur`
+holding a link `s -> .`, the path `s/s/.../s/rest` with `n` times `s` is walked iff `n` does not
+exceed the budget, and `rest` is then walked with `budget - n`. -/
+theorem C10_eloop_counts_all_links (fs : FS) (cur : Loc) (c t : Str) (rest : List Str)
+    (hd : fs.get cur = some Node.dir) (h1 : ¬ (c = [] ∨ c = DOT)) (h2 : c ≠ DOTDOT)
+    (hl : fs.get (cur ++ [c]) = some (Node.link t)) :
+    (∀ f, walk fs (f + 1) cur (c :: rest) true = walk fs f (startLoc cur t) (splitSep t ++ rest) true) ∧
+    walk fs 0 cur (c :: rest) true = none ∧
+    (t = DOT → ∀ n f, walk fs f cur (List.replicate n c ++ rest) true =
+      if n ≤ f then walk fs (f - n) cur rest true else none) := by
+  refine ⟨fun f => walk_step_link fs f cur c rest t hd h1 h2 hl,
+    walk_step_link_zero fs cur c rest t hd h1 h2 hl, ?_⟩
+  intro ht n
+  subst ht
+  induction n with
+  | zero => intro f; simp
+  | succ n ih =>
+    intro f
+    rw [List.replicate_succ, List.cons_append]
+    cases f with
+    | zero =>
+      rw [walk_step_link_zero fs cur c _ DOT hd h1 h2 hl]
+      simp
+    | succ f =>
+      rw [walk_step_link fs f cur c _ DOT hd h1 h2 hl]
+      have hs : splitSep DOT = [DOT] := by decide
+      have hst : startLoc cur DOT = cur := by simp [startLoc, isabs, DOT]
+      rw [hs, hst, List.singleton_append, walk_step_skip fs f cur DOT _ true hd (Or.inr rfl), ih f]
+      by_cases hnf : n ≤ f
+      · have : n + 1 ≤ f + 1 := by omega
+        simp only [hnf, this, if_true]
+        congr 1
+        omega
+      · have : ¬ (n + 1 ≤ f + 1) := by omega
+        simp only [hnf, this, if_false]
+
+/-- sequential links are counted: on the tree /d with d/s -> . and the file d/f, forty `s` resolve
+with the budget 40, forty-one do not (a bound on the nesting depth would accept any number) -/
+example :
+    let fs : FS := { node := fun l => if l = [['d']] then some Node.dir
+                       else if l = [['d'], ['s']] then some (Node.link DOT)
+                       else if l = [['d'], ['f']] then some (Node.file 1) else none,
+                     dnlink := fun _ => 2, nlink := fun _ => 1, data := fun _ => [] }
+    walk fs 40 [['d']] (List.replicate 40 ['s'] ++ [['f']]) true = some [['d'], ['f']] ∧
+    walk fs 40 [['d']] (List.replicate 41 ['s'] ++ [['f']]) true = none := by
+  intro fs
+  have hd : fs.get [['d']] = some Node.dir := by decide
+  have hl : fs.get ([['d']] ++ [['s']]) = some (Node.link DOT) := by decide
+  have key := (C10_eloop_counts_all_links fs [['d']] ['s'] DOT [['f']] hd (by decide) (by decide) hl).2.2 rfl
+  refine ⟨?_, ?_⟩
+  · rw [key 40 40]
+    have hf : fs.get ([['d']] ++ [['f']]) = some (Node.file 1) := by decide
+    simp only [Nat.le_refl, if_true, Nat.sub_self]
+    rw [walk_step_plain fs 0 [['d']] ['f'] [] true hd (by decide) (by decide) (Node.file 1) hf (by intro t; simp),
+      walk_nil]
+    rfl
+  · rw [key 41 40]
+    simp
+
 /-- the verdict of the containment check is the same for every recursion bound at or above the
 kernel's symlink bound, whenever the kernel resolves the path and (for an absolute location) the
 base directory -/
@@ -954,8 +1024,8 @@ theorem checkContainment_fuel (fs : FS) (kfuel fuel fuel' : Nat) (cwd : Loc) (hc
     rw [r1, r1', r2, r2']
 
 /-- **C10_fuel_discharged**: the recursion bound `fuel` of the transcribed `os.path.realpath` (a
-model artefact standing for CPython's recursion limit) is discharged by the kernel's symlink-nesting
-bound `kfuel`: for EVERY `fuel ≥ kfuel` a call of any entry point from any cached state has the same
+model artefact standing for CPython's recursion limit) is discharged by the kernel's bound `kfuel` on
+the number of links one resolution follows (the nesting depth never exceeds that number): for EVERY `fuel ≥ kfuel` a call of any entry point from any cached state has the same
 result, leaves the same cached state and opens the same inodes as with `fuel = kfuel`, and performs
 no event in the one case iff in the other.  Hypothesis: for an ABSOLUTE location the kernel resolves
 the (non-empty) base directory; for relative locations nothing is assumed (`C10_base_resolves`).
@@ -1382,5 +1452,201 @@ example : ∃ pre e post,
   have := ex_read EntryPoint.serializeRaw
   unfold read at this
   simpa [callT, stepWorld, World.set, TSess.rebase, TState.fresh] using this
+
+end IrVerif.Path
+
+/-! ### histories with `os.chdir` between the operations -/
+namespace IrVerif.Path
+
+theorem runMicroC_entries (kfuel fuel : Nat) (ps : Nat → TensorP) :
+    ∀ (mops : List CMOp) (cwdS : Str) (w : World), ∀ ce ∈ runMicroC kfuel fuel ps cwdS w mops,
+      ∃ st, ce.2.events = (callT ce.2.fs kfuel fuel ce.1 (comps ce.1) (ps ce.2.t) ce.2.base ce.2.ep st).2.1 ∧
+        ce.2.res = (callT ce.2.fs kfuel fuel ce.1 (comps ce.1) (ps ce.2.t) ce.2.base ce.2.ep st).1 := by
+  intro mops
+  induction mops with
+  | nil => intro cwdS w ce he; simp [runMicroC] at he
+  | cons x xs ih =>
+    intro cwdS w ce he
+    cases x with
+    | chdir c => simp only [runMicroC] at he; exact ih _ _ ce he
+    | m y =>
+      cases y with
+      | setFS fs => simp only [runMicroC, stepWorld] at he; exact ih _ _ ce he
+      | rebase t b => simp only [runMicroC, stepWorld] at he; exact ih _ _ ce he
+      | release t => simp only [runMicroC, stepWorld] at he; exact ih _ _ ce he
+      | beginLoad => simp only [runMicroC, stepWorld] at he; exact ih _ _ ce he
+      | call t ep =>
+        simp only [runMicroC, stepWorld, List.mem_cons] at he
+        rcases he with rfl | he
+        · exact ⟨(w.ts t).st, rfl, rfl⟩
+        · exact ih _ _ ce he
+      | loadOne t =>
+        by_cases hab : w.aborted = true
+        · simp only [runMicroC, stepWorld, hab, if_true] at he; exact ih _ _ ce he
+        · simp only [runMicroC, stepWorld, hab, Bool.false_eq_true, if_false, List.mem_cons] at he
+          rcases he with rfl | he
+          · exact ⟨(w.ts t).st, rfl, rfl⟩
+          · exact ih _ _ ce he
+
+/-- **C10_world_chdir_opens**: histories of public operations (as in `C10_world_safe`) with `os.chdir`
+between them: every file a call opens is opened under a base directory that is not a `bytes` object,
+by `tofile` if the tensor has size zero, and - when the base directory is non-empty and the working
+directory of THAT call is a chain of real directories named by its `os.getcwd()` string - is a safe
+open with respect to the tree, the base directory value and the working directory at the time of the
+call: a relative base directory is resolved anew, from the current working directory, by every call
+that opens the file.  (What a call serves from a mapping made earlier is the subject of
+`C10_world_safe`; a change of directory, like a change of the tree, does not drop a mapping.) -/
+theorem C10_world_chdir_opens (kfuel fuel : Nat) (hfuel : kfuel ≤ fuel) (ps : Nat → TensorP)
+    (cwd0 : Str) (w0 : World) (ops : List COp) (c : Str) (e : WLog)
+    (he : (c, e) ∈ runWorldC kfuel fuel ps cwd0 w0 ops) (q : Str) (i : Nat)
+    (hq : Ev.openEv q (some i) ∈ e.events) :
+    e.base.kind ≠ BaseKind.bytes ∧ ((ps e.t).zero = true → e.ep = EntryPoint.tofile) ∧
+    (e.base.s ≠ [] → RealDir e.fs (comps c) → render (comps c) = c →
+      q = tensorPath e.base.s (ps e.t).loc ∧ SafeOpen e.fs kfuel fuel (comps c) e.base.s (ps e.t).loc i) := by
+  obtain ⟨st, hev, _⟩ := runMicroC_entries kfuel fuel ps _ cwd0 w0 (c, e) he
+  simp only at hev
+  rw [hev] at hq
+  by_cases hr : render (comps c) = c
+  · have := callT_opens e.fs kfuel fuel (comps c) hfuel (ps e.t) e.base e.ep st q i
+      (by rw [hr]; exact hq)
+    exact ⟨this.1, this.2.1, fun hb hd _ => this.2.2 hb hd⟩
+  · -- without the rendering hypothesis only the first two clauses are claimed
+    unfold callT at hq
+    by_cases hk : e.base.kind = BaseKind.bytes
+    · simp [hk] at hq
+    · refine ⟨hk, ?_, fun _ _ h => absurd h hr⟩
+      intro hz
+      simp only [hk, if_false, hz, if_true] at hq
+      by_cases hep : e.ep = EntryPoint.tofile
+      · exact hep
+      · exact absurd hq ((zero_nontofile _ st e.ep hep).1 q (some i))
+
+end IrVerif.Path
+
+/-! ### a location given as a bytes object -/
+namespace IrVerif.Path
+
+/-- **C10_bytes_location**: a tensor whose `location` is a `bytes` object: with a NON-EMPTY base directory
+of any type (str, os.PathLike, bytes) a call of any entry point from any cached state performs no
+event at all - nothing is checked, nothing is opened - and raises, except `tobytes` of a zero-size
+tensor (which returns no byte); a file is opened only with an EMPTY base directory (checks off by
+design), and then only when that base directory is the empty `bytes` object. -/
+theorem C10_bytes_location (fs : FS) (kfuel fuel : Nat) (cwdS : Str) (cwd : Loc) (p : TensorP) (b : BaseVal)
+    (ep : EntryPoint) (st : TState) :
+    (b.s ≠ [] →
+      (callTB fs kfuel fuel cwdS cwd p b ep st).2.1 = [] ∧
+      (callTB fs kfuel fuel cwdS cwd p b ep st).2.2 = st ∧
+      ((callTB fs kfuel fuel cwdS cwd p b ep st).1 = ReadResult.raised ∨
+        ((callTB fs kfuel fuel cwdS cwd p b ep st).1 = ReadResult.ok [] ∧ p.zero = true ∧ ep = EntryPoint.tobytes))) ∧
+    (∀ q oi, Ev.openEv q oi ∈ (callTB fs kfuel fuel cwdS cwd p b ep st).2.1 →
+      b.s = [] ∧ (b.kind = BaseKind.bytes ∨ (p.zero = true ∧ ep ≠ EntryPoint.tofile))) := by
+  refine ⟨?_, ?_⟩
+  · intro hb
+    unfold callTB
+    simp only [hb, if_false]
+    refine ⟨trivial, trivial, ?_⟩
+    by_cases hc : p.zero = true ∧ ep = EntryPoint.tobytes
+    · exact Or.inr ⟨by simp [hc], hc.1, hc.2⟩
+    · exact Or.inl (by simp [hc])
+  · intro q oi h
+    unfold callTB at h
+    by_cases hb : b.s = []
+    · simp only [hb, if_true] at h
+      refine ⟨hb, ?_⟩
+      by_cases hk : b.kind = BaseKind.bytes
+      · exact Or.inl hk
+      · simp only [hk, if_false] at h
+        by_cases hz : p.zero = true ∧ ep ≠ EntryPoint.tofile
+        · exact Or.inr hz
+        · simp [hz] at h
+    · simp [hb] at h
+
+/-- the empty bytes base directory with a bytes location is the unchecked read of the empty str base -/
+example (fs : FS) (kfuel fuel : Nat) (cwdS : Str) (cwd : Loc) (p : TensorP) (ep : EntryPoint) (st : TState) :
+    callTB fs kfuel fuel cwdS cwd p { kind := BaseKind.bytes, s := [] } ep st =
+      callT fs kfuel fuel cwdS cwd p { kind := BaseKind.str, s := [] } ep st := by
+  simp [callTB]
+
+end IrVerif.Path
+
+/-! ### PATH_MAX at every path operation of the check (model `checkContainmentP`) -/
+namespace IrVerif.Path
+
+/-- **C10_pathmax_verified_partial**: the containment check with PATH_MAX at EVERY `os.lstat` / `os.stat`
+(where `os.path.realpath` silently takes an entry it cannot lstat for a non-link, D451) after the repair:
+when it passes and the open that follows reaches the inode `i`, then `i` is a regular file with at most
+one link; the strings `os.path.realpath` returned for the path and for the base directory are shorter
+than PATH_MAX and the kernel resolves them; the resolved path names the very inode `i` and the resolved
+base directory names the very object the base directory does (the `samestat` cross-check); and the
+resolved path is, as a string, inside the resolved base directory.
+PARTIAL: not proved here is that a realpath answer which passes this cross-check contains no
+unresolved symbolic link below the resolved base (every component of an answer shorter than PATH_MAX
+was lstat'ed as a non-link when it was appended), which is what turns the above into `SafeOpen`; for
+trees without names of PATH_MAX bytes or more the model without PATH_MAX in lstat / stat is exact and
+`C10_read_safe` / `C10_world_safe` apply.  The P model is compared with the real code on every run
+(family pathmax). -/
+theorem C10_pathmax_verified_partial (fs : FS) (kfuel fuel : Nat) (cwdS : Str) (cwd : Loc) (base loc : Str)
+    (i : Nat) (reg : Bool)
+    (hv : checkContainmentP fs kfuel fuel cwdS cwd base loc = Verdict.pass) (hb : base ≠ [])
+    (ho : openFile fs kfuel cwd (tensorPath base loc) = some (i, reg)) :
+    reg = true ∧ fs.nlink i ≤ 1 ∧
+    (realpathP fs kfuel fuel cwdS cwd (tensorPath base loc)).length < PATH_MAX ∧
+    (realpathP fs kfuel fuel cwdS cwd base).length < PATH_MAX ∧
+    statId fs kfuel cwd (realpathP fs kfuel fuel cwdS cwd (tensorPath base loc)) = some (StatId.ino i) ∧
+    (∃ c, statId fs kfuel cwd base = some c ∧
+      statId fs kfuel cwd (realpathP fs kfuel fuel cwdS cwd base) = some c) ∧
+    contained (realpathP fs kfuel fuel cwdS cwd base)
+      (realpathP fs kfuel fuel cwdS cwd (tensorPath base loc)) = true := by
+  obtain ⟨l, hk, hkind⟩ := openFile_some _ _ _ _ _ _ ho
+  have hlen : ¬ PATH_MAX ≤ (tensorPath base loc).length := by
+    intro h; unfold openFile at ho; simp [h] at ho
+  unfold checkContainmentP at hv
+  simp only [hb, if_false] at hv
+  split at hv
+  · exact absurd hv (by simp)
+  split at hv
+  · exact absurd hv (by simp)
+  split at hv
+  · exact absurd hv (by simp)
+  rename_i hcont
+  have hcont' : contained (realpathP fs kfuel fuel cwdS cwd base)
+      (realpathP fs kfuel fuel cwdS cwd (tensorPath base loc)) = true := by
+    simpa using hcont
+  have hsf : statFileP fs kfuel cwd (tensorPath base loc) = some (fs.nlink i, reg) := by
+    unfold statFileP statFile
+    simp only [hlen, if_false, hk]
+    rcases hkind with ⟨hr, hg⟩ | ⟨hr, hg⟩ <;> simp [hg, hr]
+  have hsi : statIdP fs kfuel cwd (tensorPath base loc) = some (StatId.ino i) := by
+    unfold statIdP statId
+    simp only [hlen, if_false, hk]
+    rcases hkind with ⟨_, hg⟩ | ⟨_, hg⟩ <;> simp [hg]
+  rw [hsf, hsi] at hv
+  simp only at hv
+  have P_some : ∀ p x, statIdP fs kfuel cwd p = some x → p.length < PATH_MAX ∧ statId fs kfuel cwd p = some x := by
+    intro p x h
+    unfold statIdP at h
+    by_cases hl : PATH_MAX ≤ p.length
+    · simp [hl] at h
+    · simp only [hl, if_false] at h
+      exact ⟨by omega, h⟩
+  cases hb2 : statIdP fs kfuel cwd (realpathP fs kfuel fuel cwdS cwd (tensorPath base loc)) with
+  | none => simp [hb2] at hv
+  | some b =>
+    cases hc2 : statIdP fs kfuel cwd base with
+    | none => simp [hb2, hc2] at hv
+    | some c =>
+      cases hd2 : statIdP fs kfuel cwd (realpathP fs kfuel fuel cwdS cwd base) with
+      | none => simp [hb2, hc2, hd2] at hv
+      | some d =>
+        simp only [hb2, hc2, hd2] at hv
+        split at hv
+        · rename_i hall
+          simp only [Bool.and_eq_true, decide_eq_true_eq] at hall
+          obtain ⟨⟨⟨hab, hcd⟩, hn⟩, hr⟩ := hall
+          obtain ⟨lb, hbs⟩ := P_some _ _ hb2
+          obtain ⟨_, hcs⟩ := P_some _ _ hc2
+          obtain ⟨ld, hds⟩ := P_some _ _ hd2
+          exact ⟨hr, hn, lb, ld, by rw [hbs, ← hab], ⟨c, hcs, by rw [hds, hcd]⟩, hcont'⟩
+        · exact absurd hv (by simp)
 
 end IrVerif.Path
